@@ -76,3 +76,18 @@ chk("C20",
     "does not work on this backend (baseline failures) and is outside the claim, as the property states.",
     "Lean 4 proof (refinement to a finite map, invariant preservation) + differential correspondence on histories",
     "6/C20")
+chk("C10",
+    "The server program is EXTRACTED from frontend/server/** on every run (AST translator -> Generated/ServerIR.lean: guards and effects of the "
+    "three handlers, the dispatch table, the constructor's load logic, close_service, the file-manager primitives, the manager's step order) and "
+    "Props/C10.lean proves about it, for every finite history of messages (config/upload/search with any payload, foreign sid, missing type/sid, "
+    "unknown type) and reconnections (after or before the previous connection's cleanup) over any number of connections: the observable trace "
+    "equals the trace of the 3-state reference machine and the durable state denotes its state (refinement, by induction over the history with "
+    "a shape invariant of the disk); hence forward-only state, write-once configuration and index, results only in the ready state and from the "
+    "accepted index, refusals change nothing, the echoed state is the durable state. The interpreter is tied to the real handler by executing "
+    "ALL sequences up to depth 3 (quick) / 4 (thorough) over a 9-symbol alphabet plus random longer ones against the real websocket handler "
+    "with a real PiBas index, comparing traces and the final on-disk state; the reference machine is also evaluated directly on the real traces.",
+    "Trusted: Lean kernel + 3 standard axioms; the AST extractor's pattern table and the interpreter's reading of each IR op (validated by the "
+    "correspondence); asyncio atomicity between awaits; the websockets library (a raising handler = close code 1011, refusal reply not delivered); "
+    "configs/indexes/tokens opaque, Search is a leaf; the cleanup delay is harness-controlled. Overlapping connections are C12.",
+    "Lean 4 proof over a program regenerated from the source by a translator (refinement to a 3-state machine) + exhaustive-to-depth differential correspondence",
+    "6/C10")
